@@ -159,3 +159,35 @@ package logql
 //@   modifies nothing
 //@   ensures[not-paren] !typeis[*ParenExpr](ret0)
 //@   ensures[identity-unless-paren] !typeis[*ParenExpr](e) ==> ret0 == e
+
+// ---- C07: label_format parsing
+
+//@ func (*parser).consumeText
+//@   requires p.pos >= 0
+//@   modifies p.pos
+//@   ensures p.pos >= old(p.pos)
+//@   ensures[text-of-consumed-token] ret2 == nil ==> ret0 == ret1.Text && ret1.Type == tt
+
+//@ func (*parser).parseIdent
+//@   requires p.pos >= 0
+//@   modifies p.pos
+//@   ensures p.pos >= old(p.pos)
+
+//@ func (*parser).parseString
+//@   requires p.pos >= 0
+//@   modifies p.pos
+//@   ensures p.pos >= old(p.pos)
+
+// label_format dst=src renames label src to dst; dst="tmpl" sets dst to the template expansion.
+//@ func (*parser).parseLabelFormatExpr
+//@   requires p.pos >= 0
+//@   capture dst = call(p.consumeText, 0)
+//@   capture src = call(p.parseIdent, 0)
+//@   capture tpl = call(p.parseString, 0)
+//@   loop 0 modifies p.pos, lf.Labels, lf.Values, lf.Labels[*], lf.Values[*], labels[*]
+//@   loop 0 invariant p.pos >= 0 && lf != nil && labels != nil
+//@   loop 0 body_ensures[rename-source-to-target] src_called ==> len(lf.Labels) == head(len(lf.Labels))+1 && lf.Labels[len(lf.Labels)-1].Label == src_r0 && lf.Labels[len(lf.Labels)-1].To == Label(dst_r0)
+//@   loop 0 exit_ensures[rename-source-to-target] src_called && src_r1 == nil ==> len(lf.Labels) == head(len(lf.Labels))+1 && lf.Labels[len(lf.Labels)-1].Label == src_r0 && lf.Labels[len(lf.Labels)-1].To == Label(dst_r0)
+//@   loop 0 body_ensures[template-sets-target] tpl_called ==> len(lf.Values) == head(len(lf.Values))+1 && lf.Values[len(lf.Values)-1].Label == Label(dst_r0) && lf.Values[len(lf.Values)-1].Template == tpl_r0
+//@   loop 0 exit_ensures[template-sets-target] tpl_called && tpl_r1 == nil ==> len(lf.Values) == head(len(lf.Values))+1 && lf.Values[len(lf.Values)-1].Label == Label(dst_r0) && lf.Values[len(lf.Values)-1].Template == tpl_r0
+//@   loop 0 body_ensures[target-recorded-once] dst_called && !head(has(labels, Label(dst_r0))) && has(labels, Label(dst_r0))
